@@ -8,14 +8,26 @@
 (*   Mode "C05"  a set-up prefix (constraint first, then <= 3 CREATEs) followed  *)
 (*               by ONE multi-row statement in which any row may fail: zero      *)
 (*               divisor, bad operand type, duplicate constrained value          *)
+(*   Mode "C05DEL" (C05) EVERY sequence of: (:A)-[:T]->(:B), up to two further    *)
+(*               relationships on either end (other type, other direction, same  *)
+(*               type to another node), then ONE plain DELETE naming a node and  *)
+(*               some, all or none of its relationships, the names in any order  *)
 (*   Mode "C04"  sequences over the whole write fragment, no constraints         *)
+(*   Mode "HUB"  (C04) EVERY sequence of: a hub :A, 3..5 targets :B, one           *)
+(*               relationship hub->target per target in varying orders, the      *)
+(*               deletion of one (two) of them by DELETE r or by DETACH DELETE   *)
+(*               of the target, then MERGE (hub)-[:T]->(target) towards every    *)
+(*               target still linked, in every order                            *)
 EXTENDS CypherWrite, Json
 
 CONSTANTS Mode, MaxHist,
           UseKF,        \* deviation actions also taken by Next (self-test / witness search)
           ListLen,      \* C05: UNWIND lists of length 1..ListLen
           Rich,         \* C04/C05: larger alphabets (thorough tier)
-          Sim           \* TRUE under -simulate: a walk that reached MaxHist statements prints itself
+          Sim,          \* TRUE under -simulate: a walk that reached MaxHist statements prints itself
+          HubSizes,     \* HUB: numbers of targets, e.g. {3, 4}
+          HubDels,      \* HUB: deletions before the MERGEs (1 or 2)
+          HubAllOrders  \* HUB: TRUE every order of creating the relationships, FALSE ascending and descending only
 
 VARIABLES hist, last, phase
 vars == <<G, hist, last, phase>>
@@ -38,6 +50,7 @@ Create(np) == [kind |-> "create", n |-> np]
 Var(v) == [kind |-> "var", var |-> v]
 New(np) == [kind |-> "new", n |-> np]
 CreateRel(s, t, pr, d) == [kind |-> "createrel", src |-> s, dst |-> d, t |-> t, props |-> pr]
+MergeRel(t) == [kind |-> "mergerel", t |-> t]
 Merge(np, oc, om) == [kind |-> "merge", n |-> np, oncreate |-> oc, onmatch |-> om]
 SetP(key, e) == [kind |-> "prop", key |-> key, val |-> e]
 SetM(k, p) == [kind |-> "map", props |-> Props(k, p)]
@@ -46,6 +59,7 @@ Set(items) == [kind |-> "set", items |-> items]
 RemP(key) == [kind |-> "prop", key |-> key]
 RemL(l) == [kind |-> "label", label |-> l]
 Rem(items) == [kind |-> "remove", items |-> items]
+DeleteMany(vs) == [kind |-> "deletemany", vars |-> vs, detach |-> FALSE]
 Delete(v, detach) == [kind |-> "delete", var |-> v, detach |-> detach]
 RetProp(v, key) == [e |-> "vprop", var |-> v, key |-> key]
 Constraint(l, key) == [kind |-> "constraint", label |-> l, key |-> key]
@@ -91,6 +105,30 @@ C05Faulty ==
           W(Match(NP(<<"B">>, None, None)), Set(<<SetL("A")>>), <<>>),
           W(Match(NP(<<"A">>, None, None)), Create(NP(<<"A">>, [e |-> "divprop", v |-> "i10", key |-> "p"], None)), <<>>)}
 
+\* ------------------------------------------------------------------ C05DEL family
+NA0 == NP(<<"A">>, None, None)
+NB0 == NP(<<"B">>, None, None)
+A1 == NP(<<"A">>, Lit("i1"), None)
+B1 == NP(<<"B">>, Lit("i1"), None)
+NoP == Props(None, None)
+DelBase == W(NoSrc, CreateRel(New(A1), "T", NoP, New(B1)), <<>>)
+\* a further relationship that the DELETE below may or may not name
+DelExtras ==
+    {W(Match2(A1, B1), CreateRel(Var("n"), "U", NoP, Var("m")), <<>>),                                   \* other type, same pair
+     W(Match2(A1, B1), CreateRel(Var("m"), "T", NoP, Var("n")), <<>>),                                   \* other direction
+     W(Match2(A1, B1), CreateRel(Var("n"), "T", NoP, Var("m")), <<>>),                                   \* parallel, same type
+     W(Match(A1), CreateRel(Var("n"), "T", NoP, New(NP(<<"B">>, Lit("i2"), None))), <<>>),               \* same type, other node
+     W(Match(A1), CreateRel(New(NP(<<"B">>, Lit("i2"), None)), "U", NoP, Var("n")), <<>>),               \* incoming, other node
+     W(Match(B1), CreateRel(Var("n"), "T", NoP, New(NP(<<"A">>, Lit("i2"), None))), <<>>),               \* the far end keeps one
+     W(Match(B1), CreateRel(New(NP(<<"A">>, Lit("i2"), None)), "T", NoP, Var("n")), <<>>)}
+DelVars == {<<"n", "r">>, <<"r", "n">>, <<"n", "r", "m">>, <<"m", "r", "n">>, <<"r", "m">>, <<"n", "m">>}
+DelFaulty ==
+    {W(MatchRel(A1, "T", B1), DeleteMany(vs), <<>>) : vs \in DelVars}
+    \cup {W(MatchRel(NA0, "T", NB0), DeleteMany(vs), <<>>) : vs \in DelVars}
+DelStmts == IF hist = <<>> THEN {DelBase}
+            ELSE IF phase # 0 THEN {}
+            ELSE DelFaulty \cup (IF Len(hist) < 3 THEN DelExtras ELSE {})
+
 \* ------------------------------------------------------------------ C04 alphabet
 V2 == {"i1", "i2"}
 NA == NP(<<"A">>, None, None)
@@ -109,7 +147,8 @@ C04Stmts ==
     \cup {W(NoSrc, Merge(NP(<<"A">>, Lit(v), None), <<SetP("p", Lit("i1"))>>, <<SetP("p", Lit("i2"))>>), <<RetProp("n", "p")>>) : v \in V2}
     \cup {W(NoSrc, Merge(NP(<<>>, Lit("i1"), None), <<>>, <<>>), <<>>),
           W(NoSrc, Merge(NP(<<"B">>, None, None), <<>>, <<SetP("k", Lit("i2"))>>), <<>>),
-          W(Unwind(<<"i1", "i1", "i2">>), Merge(NP(<<"B">>, X, None), <<>>, <<>>), <<>>)}
+          W(Unwind(<<"i1", "i1", "i2">>), Merge(NP(<<"B">>, X, None), <<>>, <<>>), <<>>),
+          W(Match2(NA, NB), MergeRel("T"), <<>>)}
     \* SET
     \cup {W(Match(NA), Set(<<SetP("k", Lit(v))>>), <<RetProp("n", "k")>>) : v \in V2}
     \cup {W(Match(NA), Set(<<SetP("p", [e |-> "prop", key |-> "k"])>>), <<>>),
@@ -146,6 +185,37 @@ C04Stmts ==
                 W(MatchWith(NA), Set(<<SetL("B")>>), <<>>)}
           ELSE {})
 
+\* ------------------------------------------------------------------ HUB family (C04)
+\* the state of a script is read off the graph and the history; phase = 0 until the first deletion, then 1 + deletions
+HubT(x) == NP(<<"B">>, Lit(x), None)
+HubTargets(g) == {g.nodes[i].props["k"] : i \in {j \in LiveN(g) : "B" \in g.nodes[j].labels}}
+HubLinked(g, x) == \E e \in LiveE(g) : "B" \in g.nodes[g.rels[e].dst].labels /\ g.nodes[g.rels[e].dst].props["k"] = x
+HubMerged(h) == {h[j].st.src.m.props.k.v : j \in {i \in DOMAIN h : h[i].st.kind = "write" /\ h[i].st.w.kind = "mergerel"}}
+IsDeletion(st) == st.kind = "write" /\ st.w.kind = "delete"
+Least(S) == CHOOSE x \in S : \A y \in S : IntOf(x) <= IntOf(y)
+Greatest(S) == CHOOSE x \in S : \A y \in S : IntOf(x) >= IntOf(y)
+HubLink(x) == W(Match2(NA, HubT(x)), CreateRel(Var("n"), "T", Props(None, None), Var("m")), <<>>)
+HubDeletions(S) == {W(MatchRel(NA, "T", HubT(x)), Delete("r", FALSE), <<>>) : x \in S}
+                   \cup {W(Match(HubT(x)), Delete("n", TRUE), <<>>) : x \in S}
+\* with and without RETURN: towards even targets the statement returns m.k
+HubMerge(x) == W(Match2(NA, HubT(x)), MergeRel("T"), IF IntOf(x) % 2 = 0 THEN <<RetProp("m", "k")>> ELSE <<>>)
+HubStmts ==
+    LET all == HubTargets(G)
+        linked == {x \in all : HubLinked(G, x)}
+        unlinked == all \ linked
+    IN IF hist = <<>> THEN {W(NoSrc, Create(NA), <<>>)}
+       ELSE IF Len(hist) = 1 THEN {W(Unwind([j \in 1..n |-> IntTokF[j]]), Create(NP(<<"B">>, X, None)), <<>>) : n \in HubSizes}
+       ELSE IF phase = 0
+            THEN IF unlinked # {}
+                 THEN {HubLink(x) : x \in IF HubAllOrders THEN unlinked
+                                          ELSE IF linked = {} THEN {Least(unlinked), Greatest(unlinked)}
+                                          ELSE IF Least(all) \in linked THEN {Least(unlinked)} ELSE {Greatest(unlinked)}}
+                 ELSE HubDeletions(linked)
+       ELSE IF phase < 1 + HubDels THEN HubDeletions(linked)
+       ELSE {HubMerge(x) : x \in linked \ HubMerged(hist)}
+\* the script is complete: every target that is still linked has been merged towards
+HubDone(g, h, ph) == ph = 1 + HubDels /\ {x \in HubTargets(g) : HubLinked(g, x)} \subseteq HubMerged(h)
+
 \* ------------------------------------------------------------------ next-state relation
 Init == G = EmptyGraph /\ hist = <<>> /\ last = [err |-> FALSE, st |-> [kind |-> "none"]] /\ phase = 0
 
@@ -153,7 +223,10 @@ Candidates ==
     CASE Mode = "C11" -> C11Stmts
       [] Mode = "C05" -> IF phase = 0 THEN C05Setup \cup (IF hist = <<>> THEN {} ELSE C05Faulty) ELSE {}
       [] Mode = "C04" -> C04Stmts
-IsFaulty(st) == Mode = "C05" /\ st.kind = "write" /\ st.src.kind # "none"     \* (= st \in C05Faulty, without building the set)
+      [] Mode = "HUB" -> HubStmts
+      [] Mode = "C05DEL" -> DelStmts
+IsFaulty(st) == \/ Mode = "C05" /\ st.kind = "write" /\ st.src.kind # "none"     \* (= st \in C05Faulty, without building the set)
+                \/ Mode = "C05DEL" /\ st.w.kind = "deletemany"
 
 \* would the evaluator run out of ids? (the bounded universes are a model artefact, not behaviour)
 NewNodesPerRow(w) == CASE w.kind = "create" -> 1
@@ -161,7 +234,7 @@ NewNodesPerRow(w) == CASE w.kind = "create" -> 1
                        [] w.kind = "createrel" -> (IF w.src.kind = "new" THEN 1 ELSE 0) + (IF w.dst.kind = "new" THEN 1 ELSE 0)
                        [] OTHER -> 0
 Fits(st, rows) == /\ Cardinality(LiveN(G)) + NewNodesPerRow(st.w) * Len(rows) <= MaxN
-                  /\ Cardinality(LiveE(G)) + (IF st.w.kind = "createrel" THEN Len(rows) ELSE 0) <= MaxE
+                  /\ Cardinality(LiveE(G)) + (IF st.w.kind \in {"createrel", "mergerel"} THEN Len(rows) ELSE 0) <= MaxE
 
 \* every order of the matched rows while there are few of them; beyond that one order (the row orders multiply the
 \* successors without reaching new graphs; the trace specification still accepts every order)
@@ -171,7 +244,9 @@ DoStmt ==
     /\ Len(hist) < MaxHist             \* (a guard rather than a CONSTRAINT: nothing is computed beyond the bound)
     /\ \E st \in Candidates :
         /\ hist' = Append(hist, [op |-> "Stmt", st |-> st])
-        /\ phase' = IF IsFaulty(st) THEN 1 ELSE phase
+        /\ phase' = IF IsFaulty(st) THEN 1
+                    ELSE IF Mode = "HUB" /\ IsDeletion(st) THEN (IF phase = 0 THEN 2 ELSE phase + 1)
+                    ELSE phase
         /\ IF st.kind = "constraint"
            THEN LET err == HasDuplicate(G, st.label, st.key) IN
                 /\ CreateConstraint(st, err, IF err THEN G ELSE [G EXCEPT !.cons = @ \cup {ConsName(st.label, st.key)}])
@@ -201,6 +276,8 @@ Emit == PrintT(<<"SCRIPT", ToJson(hist')>>)
 \* C05: only histories that end with the multi-row statement are worth replaying
 EmitFaulty == phase' = 1 => PrintT(<<"SCRIPT", ToJson(hist')>>)
 EmitLeaf == Len(hist') = MaxHist => PrintT(<<"SCRIPT", ToJson(hist')>>)
+\* HUB: complete scripts only (run without VIEW: every sequence of choices is a behaviour of its own)
+EmitHub == HubDone(G', hist', phase') => PrintT(<<"SCRIPT", ToJson(hist')>>)
 
 \* ------------------------------------------------------------------ design-level action properties
 \* C05: a statement that reports an error changes nothing
@@ -209,11 +286,12 @@ C05_ErrorChangesNothing == [][last'.err => G' = G]_vars
 PlainNodeDelete(st) == st.kind = "write" /\ st.w.kind = "delete" /\ st.w.var # "r" /\ ~st.w.detach
 C04_ConnectedDeleteRefused == [][PlainNodeDelete(last'.st) => LiveE(G') = LiveE(G)]_vars
 \* C04: MERGE never creates a second match: right after a successful MERGE statement the same statement creates nothing
-IsMerge(st) == st.kind = "write" /\ st.w.kind = "merge"
+\* (node patterns and relationships between bound endpoints alike)
+IsMerge(st) == st.kind = "write" /\ st.w.kind \in {"merge", "mergerel"}
 C04_MergeIdempotent ==
     [][(IsMerge(last'.st) /\ ~last'.err) =>
           \A rows \in RowTables(G', last'.st.src) :
-              LET r == Exec(G', last'.st, rows) IN ~r.err => LiveN(r.g) = LiveN(G')]_vars
+              LET r == Exec(G', last'.st, rows) IN ~r.err => LiveN(r.g) = LiveN(G') /\ LiveE(r.g) = LiveE(G')]_vars
 \* C11: Outcome = Refused <=> WouldDuplicate (Mode C11, whose statements have no other reason to fail): the statement
 \* is refused exactly when applying it with the registry switched off would leave two live nodes of a constrained
 \* label with equal values
